@@ -34,7 +34,14 @@ def scenarios(tier):
              {"command": "SkipRegions", "parameterPattern": "^\\s*(now)?\\s*$", "action": "enable_exclusion", "description": ""},
              {"command": "ExcludeRegion", "parameterPattern": "^\\s*(disable|off)(\\s|$)", "action": "disable_exclusion",
               "description": ""}]
+    cased = [{"command": "ExcludeRegion", "parameterPattern": "^\\s*Skirt(\\s|$)", "action": "disable_exclusion", "description": ""},
+             {"command": "ExcludeRegion", "parameterPattern": "^\\s*(enable|on)(\\s|$)", "action": "enable_exclusion", "description": ""}]
     return [
+        Scenario("c14-case", World, dict(base, at=cased, regions=["R"]),
+                 moves[:6] + [("AT", "ExcludeRegion", "Skirt"), ("AT", "ExcludeRegion", "skirt"), ("AT", "ExcludeRegion", "ON"),
+                              ("AT", "ExcludeRegion", "on"), ("AT", "excluderegion", "on")],
+                 max_states=150000 if q else 3000000,
+                 note="patterns and parameters are matched case-sensitively, as configured"),
         Scenario("c14-default", World, base, moves + dflt, max_states=150000 if q else 3000000),
         Scenario("c14-custom", World, dict(base, at=CUSTOM, regions=["R"]), moves[:6] + cust,
                  max_states=150000 if q else 3000000),
